@@ -314,7 +314,7 @@ class Case:
     def lambda_let(self, env):
         r = self.r
         self.lam += 1
-        nm = self.fresh("f")
+        nm = self.fresh("lam")
         pt = [r.choice(INT) for _ in range(r.randint(0, 2))]
         rt = r.choice(INT)
         params = [self.fresh("p") for _ in pt]
@@ -411,7 +411,7 @@ class Case:
             ch = self.chain
             call = {"k": "call", "fn": ch["fn"], "args": [{"k": "lit", "ty": ch["ty"], "c": 0, "o": ch["arg"]}], "ty": ch["ty"]}
             if "lambda" in self.feat and r.random() < 0.5:
-                nm = self.fresh("f")
+                nm = self.fresh("lam")
                 body.append({"k": "lamlet", "n": nm, "params": [], "ret": ch["ty"], "body": [], "res": call})
                 env[nm] = ["lam", [], ch["ty"]]
                 call = {"k": "invoke", "n": nm, "args": [], "ty": ch["ty"]}
@@ -463,7 +463,9 @@ class Renderer:
         if k == "enew":
             if x["n"] == "Option":
                 T = tyname(x["targ"])
-                return f"None[{T}]" if x["v"] == "None" else f"Some[{T}]({self.e(x['args'][0], ln)})"
+                if x["v"] == "None" and not x["args"]:
+                    return f"None[{T}]"
+                return f"{x['v']}[{T}](" + ", ".join(self.e(a, ln) for a in x["args"]) + ")"
             return f"{x['n']}::{x['v']}" + ("(" + ", ".join(self.e(a, ln) for a in x["args"]) + ")" if x["args"] else "")
         raise ValueError(k)
 
@@ -476,7 +478,7 @@ class Renderer:
         ln = len(self.out) + 1
         s["line"] = ln
         if k == "let":
-            self.line(f"{ind}let mut {s['n']}: {tyname(s['ty'])} = {self.e(s['e'], ln)};")
+            self.line(f"{ind}let {'mut ' if s.get('mut', True) else ''}{s['n']}: {tyname(s['ty'])} = {self.e(s['e'], ln)};")
         elif k == "leta":
             self.line(f"{ind}let {s['n']} = Array[{TYN[s['ety']]}]::fill({s['len']}i64, {self.e(s['e'], ln)});")
         elif k == "set":
@@ -554,7 +556,8 @@ def render(cases, filename="prog.dora"):
             R.line(f"    fn {f['n']}({ps}): {TYN[f['ret']]} {{")
             R.stmts(f["body"], "        ")
             ln = len(R.out) + 1
-            R.line(f"        {R.e(f['res'], ln)}")
+            if f["res"] is not None:
+                R.line(f"        {R.e(f['res'], ln)}")
             R.line("    }")
         R.line("    pub fn run() {")
         R.stmts(c.run, "        ")
